@@ -23,8 +23,8 @@ Proof. exact range. Qed.
 Theorem C19_range_wide : forall k a z L, 1 <= a -> -1 <= z <= 1 -> 0 <= integration_constant (window k a) z L <= 1.
 Proof. exact window_range_wide. Qed.
 
-Theorem C19_even_any_width : forall k a z L, integration_constant (window k a) (- z) L = integration_constant (window k a) z L.
-Proof. exact window_even_any. Qed.
+Theorem C19_even_any_width : forall k a z L, a <> 0 -> integration_constant (window k a) (- z) L = integration_constant (window k a) z L.
+Proof. exact (fun k a z L _ => window_even_any k a z L). Qed.
 
 Theorem C19_centre_any_width : forall k a L, a <> 0 -> integration_constant (window k a) 0 L = 1.
 Proof. exact window_centre_any. Qed.
@@ -39,10 +39,11 @@ Theorem C19_end_values : forall L,
   integration_constant (ApHamming 1) 1 L = 0.08 /\ integration_constant (ApWelch 1) 1 L = 0.
 Proof. exact window_end_values. Qed.
 
-(* Gaussian: one half at physical position +- FWHM/2, i.e. z = +- fwhm / L; the divisor of the formula is non-zero *)
-Theorem C19_gaussian_half : forall fwhm L, 0 < fwhm -> 0 < L ->
-  integration_constant (ApGaussian fwhm) (fwhm / L) L = / 2 /\ integration_constant (ApGaussian fwhm) (- (fwhm / L)) L = / 2.
-Proof. exact gaussian_half. Qed.
+(* Gaussian: one half at physical position +- FWHM/2, i.e. z = +- fwhm / L (inside the crystal: fwhm <= L, so the code's range
+   assertion on z holds); the divisor of the formula is non-zero *)
+Theorem C19_gaussian_half : forall fwhm L, 0 < fwhm -> 0 < L -> fwhm <= L ->
+  -1 <= fwhm / L <= 1 /\ integration_constant (ApGaussian fwhm) (fwhm / L) L = / 2 /\ integration_constant (ApGaussian fwhm) (- (fwhm / L)) L = / 2.
+Proof. exact gaussian_half_in_range. Qed.
 
 Theorem C19_gaussian_defined : forall fwhm L, 0 < fwhm -> 0 < L ->
   2 * (fwhm / (2 * sqrt (2 * ln 2))) / L <> 0 /\ 0 <= 2 * ln 2.
@@ -152,6 +153,18 @@ Theorem C19_updates : forall ops r, request_ok r -> Forall op_ok ops ->
   pp_run (rep r) ops = rep (request_run r ops) /\ request_ok (request_run r ops).
 Proof. exact run_rep. Qed.
 
+(* try_as_optimum (the optimum period is an oracle): an optimiser error is passed on; on success the new period is the optimiser's
+   and the apodization is the one the description had (none for an unpoled one).  As OpAsOptimum it is one of the operations
+   C19_updates quantifies over. *)
+Theorem C19_as_optimum : forall s,
+  pp_try_as_optimum None s = None /\
+  forall p, p <> 0 -> pp_try_as_optimum (Some p) s = Some (rep (Some (p, pp_apodization s))).
+Proof. exact as_optimum_spec. Qed.
+
+(* the wrapper PeriodicPoling::integration_constant evaluates the stored window at the same position and length *)
+Theorem C19_wrapper : forall m sg a z L, pp_integration_constant (On m sg a) z L = integration_constant a z L.
+Proof. exact wrapper_on. Qed.
+
 Theorem C19_new : forall p a, p <> 0 -> pp_new p a = rep (Some (p, a)).
 Proof. exact new_rep. Qed.
 
@@ -239,6 +252,8 @@ Print Assumptions C19_no_apodization_half.
 Print Assumptions C19_mirror.
 Print Assumptions C19_lengths.
 Print Assumptions C19_updates.
+Print Assumptions C19_as_optimum.
+Print Assumptions C19_wrapper.
 Print Assumptions C19_new.
 Print Assumptions C19_reachable.
 Print Assumptions C19_rep_sign.
